@@ -199,7 +199,7 @@ func (c *converter) ProgramEnd() error {
 			c.sliceAssignmentString("!%1!", "!_i!", "%3", false),
 			`set /A "_i=!_i!+1"`,
 			"goto :_sah_loop",
-			") else (",
+			`) else if "!_i!" equ "%2" (`, // Only an index at the end of the slice makes it longer.
 			`set /A "_len=%2+1"`,
 			c.callFuncString(sliceLenSetHelper, []string{}, "!%1!", "!_len!"),
 			")",
